@@ -92,7 +92,7 @@ struct E2 : Engine {
 		int nops = thorough ? 10 + r.below(400) : 8 + r.below(120);
 		if(process && r.below(3) == 0) nops = thorough ? 2000 + r.below(8000) : 300 + r.below(900);   // long fill/clear cycles
 		bool bigvals = process && r.below(2) && nops <= 1200;   // long fill/clear cycles use moderate values (cost), short runs the huge ones
-		{ J kp = J::arr(); for(int i=0;i<nkeys && i<64;i++){ unsigned x = r.below(10); int pad = 0; if(x == 0) pad = 16 + r.below(40); else if(process && x == 1) pad = mem_kb*1024/8 + r.below(mem_kb*1024/6); else if(process && x == 2) pad = 1000 + r.below(30000); kp.push(pad); } p["key_pad"] = kp; }
+		{ J kp = J::arr(); for(int i=0;i<nkeys && i<64;i++){ unsigned x = r.below(10); int pad = 0; if(x == 0) pad = 16 + r.below(40); else if(process && x == 1) pad = mem_kb*1024/8 + r.below(mem_kb*1024/6); else if(process && x == 2) pad = 1000 + r.below(30000); if(nops > 1200 && pad > 30000) pad = 1000 + r.below(30000); kp.push(pad); } p["key_pad"] = kp; }   // the long cycles use moderate keys (every operation copies and hashes its key: 8000 operations on an 800 KB key made a 40 s run, a real-time "hang" of the harness in a soak run)
 		J ops = J::arr(); bool gen_page_open = false;
 		auto pick_trigs = [&](J &o){ J tr = J::arr(); int n = ntrig ? r.below(3) : 0; for(int i=0;i<n;i++) tr.push((int)r.below(ntrig)); if(r.below(6) == 0) tr.push(100 + (int)r.below(nkeys)); if(r.below(50)==0) for(int i=0;i<30;i++) tr.push(200+i); o["trig"] = tr; };
 		auto pick_dl = [&]()->int { unsigned x = r.below(10); return x < 5 ? 1 + (int)r.below(8) : x < 8 ? 50 + (int)r.below(1000) : x == 8 ? -(int)r.below(3) : 0; };
